@@ -500,7 +500,15 @@ fn lax_check(start: Start, b: &[u8], rl: &RefOut, ctx: &mut Ctx) -> Result<(), F
                 if p.transport != qt {
                     diffs.push(Diff { what: "transport".into(), detail: format!("{:?} vs slicing {:?}", p.transport, qt) });
                 }
-                let (a, bq) = (lax_payload_view(b, &p.payload), lax_sliced_payload_view(b, q));
+                let (a, mut bq) = (lax_payload_view(b, &p.payload), lax_sliced_payload_view(b, q));
+                // the property speaks of the payload's byte range; the harness derives the slicing side's
+                // flag from the IP layer. For a UDP payload the struct family may also let the UDP length
+                // field count ("length in UDP or IP header", docs of LaxPayloadSlice::Udp): either flag
+                if let Some(TransportSlice::Udp(u)) = &q.transport {
+                    if a.2 != bq.2 && a.2 == (bq.2 || usize::from(u.length()) > u.slice().len()) {
+                        bq.2 = a.2;
+                    }
+                }
                 if a != bq {
                     diffs.push(Diff { what: "payload".into(), detail: format!("{:?} vs slicing {:?}", a, bq) });
                 }
